@@ -73,6 +73,23 @@ func Getppid() int {
 	return syscall.Getppid()
 }
 
+// Getpgid returns the process group of a live simulated process (ESRCH for one that has exited and been reaped).
+func Getpgid(pid int) (int, error) {
+	w := simrt.Current()
+	if w == nil {
+		return syscall.Getpgid(pid)
+	}
+	if pid == 0 {
+		return simrt.CurProc().Pgid, nil
+	}
+	for _, p := range w.LiveProcs() {
+		if p.Pid == pid {
+			return p.Pgid, nil
+		}
+	}
+	return -1, syscall.ESRCH
+}
+
 // Kill delivers sig to a simulated process (pid > 0) or process group (pid < 0).
 func Kill(pid int, sig Signal) error {
 	w := simrt.Current()
